@@ -159,7 +159,7 @@ func (t *translator) leanType(ty types.Type) string {
 		case types.Int, types.Int64, types.UntypedInt:
 			return "Int"
 		case types.Uint:
-			return "Nat"
+			return "UInt64" // amd64
 		case types.Float32:
 			return "F32"
 		case types.Float64, types.UntypedFloat:
@@ -240,7 +240,7 @@ func tyCode(ty types.Type) string {
 	case types.Int, types.Int64:
 		return "int"
 	case types.Uint:
-		return "uint"
+		return "u64" // amd64
 	case types.Float32:
 		return "f32"
 	case types.Float64:
@@ -865,7 +865,16 @@ func (c *ctx) binop(s *state, b *ssa.BinOp) string {
 	case token.SHL, token.SHR:
 		k, ok := b.Y.(*ssa.Const)
 		if !ok {
-			fail("shift by a non-constant amount")
+			// a shift by a computed amount: Go yields 0 (unsigned) once the amount reaches the width
+			if !isUnsigned(ty) || isBigInt(ty) || !isUnsigned(b.Y.Type()) {
+				fail("shift of a signed value, or by a signed amount, that is not constant")
+			}
+			nm := "Go.shl_"
+			if b.Op == token.SHR {
+				nm = "Go.shr_"
+			}
+			amt := fmt.Sprintf("(Go.idx_%s %s)", tyCode(b.Y.Type()), y.expr)
+			return fmt.Sprintf("(%s%s %s %s)", nm, tyCode(ty), x.expr, amt)
 		}
 		n, _ := constant.Int64Val(constant.ToInt(k.Value))
 		op := "<<<"
@@ -2229,8 +2238,19 @@ func (t *translator) runInit(pk *ssa.Package) {
 				break
 			}
 			if _, ok := in.(*ssa.If); ok {
+				// `x := a && b`: one arm falls through to the other; go on at the join (what the arm and the phi define is
+				// not available, and a store of it poisons its global)
 				next = nil
+				s0, s1 := b.Succs[0], b.Succs[1]
+				if len(s0.Succs) == 1 && s0.Succs[0] == s1 {
+					next = s1
+				} else if len(s1.Succs) == 1 && s1.Succs[0] == s0 {
+					next = s0
+				}
 				break
+			}
+			if _, ok := in.(*ssa.Phi); ok {
+				continue
 			}
 			func() {
 				defer func() {
@@ -2282,7 +2302,7 @@ func (t *translator) runInit(pk *ssa.Package) {
 	for _, l := range strings.Split(strings.TrimSpace(c.out.String()), "\n") {
 		l = strings.TrimSpace(l)
 		if strings.HasPrefix(l, "let ") {
-			defs.WriteString("def " + strings.TrimPrefix(l, "let ") + "\n")
+			defs.WriteString("tolerant def " + strings.TrimPrefix(l, "let ") + "\n")
 		}
 	}
 	var gs []*ssa.Global
@@ -2305,7 +2325,7 @@ func (t *translator) runInit(pk *ssa.Package) {
 			}()
 			e := c.materialize(cl, cl.root, 0)
 			name := "G_" + pkgShort(pk.Pkg) + "_" + g.Name()
-			fmt.Fprintf(&defs, "/-- package-level variable %s.%s after initialisation -/\ndef %s : %s := %s\n", pk.Pkg.Path(), g.Name(), name, t.leanType(cl.root.typ), e)
+			fmt.Fprintf(&defs, "tolerant\n/-- package-level variable %s.%s after initialisation -/\ndef %s : %s := %s\n", pk.Pkg.Path(), g.Name(), name, t.leanType(cl.root.typ), e)
 			t.globals[g] = &node{typ: cl.root.typ, expr: name}
 		}()
 	}
@@ -2865,7 +2885,7 @@ func main() {
 	sort.Slice(gl, func(i, j int) bool { return gl[i].Path() < gl[j].Path() })
 	for _, q := range gl {
 		var b strings.Builder
-		b.WriteString("import Ivg.Gen.Code.Types\n")
+		b.WriteString("import Ivg.Gen.Code.Types\nimport Ivg.Gen.Tie.Tolerant\n")
 		var imps []string
 		for cal := range t.gcalls[q] {
 			if o := ownerPkg(cal); o != q {
@@ -2881,7 +2901,7 @@ func main() {
 				fmt.Fprintf(&b, "import Ivg.Gen.Code.%s\n", im)
 			}
 		}
-		fmt.Fprintf(&b, "/-! GENERATED by /verif/translator: package-level variables of %s as initialised — do not edit. -/\nset_option maxRecDepth 100000\nnamespace Ivg.Gen.Code\nopen Ivg.Num Ivg.Gen\n\n%s\nend Ivg.Gen.Code\n", q.Path(), t.gdefs[q])
+		fmt.Fprintf(&b, "/-! GENERATED by /verif/translator: package-level variables of %s as initialised — do not edit.\n(`tolerant`: a variable of a package outside the module whose initialiser cannot be expressed is skipped; whatever uses it then fails.) -/\nset_option maxRecDepth 100000\nnamespace Ivg.Gen.Code\nopen Ivg.Num Ivg.Gen\n\n%s\nend Ivg.Gen.Code\n", q.Path(), t.gdefs[q])
 		write("G_"+pkgShort(q)+".lean", b.String())
 	}
 	for _, fi := range all {
